@@ -1,3 +1,111 @@
-import ArvVerif.Model.C10_Py
+/-
+C10 — all manifest codecs agree with the published manifest format.
+Property theorems only (helpers are in Proofs/C10_*.lean). Bytes are `List UInt8`; every theorem
+is for all inputs of any size. `ValidManifest` / `parseSpec` / `resolve` are the specification
+(Model/C10.lean), written from doc/architecture/manifest-format.html.textile.liquid.
+-/
+import ArvVerif.Proofs.C10_PkgText
+import ArvVerif.Proofs.C10_PyRanges
+import ArvVerif.Proofs.C10_FsLoop
 namespace ArvVerif.C10
+
+/-! ## the binary searches -/
+
+/-- **`manifest.firstBlock` (fixed code) terminates and is correct** for every non-decreasing
+offsets array with at least one block, zero-length blocks anywhere: it returns the block that
+contains `start`, and `-1` exactly when no block does. (`FB.outOfFuel` / `FB.indexPanic` are
+excluded because the result is one of the two listed alternatives.) -/
+theorem C10_firstBlock_correct (offs : List Nat) (start : Nat) (hlen : 2 ≤ offs.length)
+    (hsorted : offs.Pairwise (· ≤ ·)) :
+    (∃ i, firstBlock offs start = .found i ∧ InBlock offs start i) ∨
+    (firstBlock offs start = .notFound ∧ ∀ j, ¬ InBlock offs start j) :=
+  firstBlock_spec offs start hlen hsorted
+
+/-- … and it finds block `i` if and only if `offs[i] ≤ start < offs[i+1]`. -/
+theorem C10_firstBlock_iff (offs : List Nat) (start i : Nat) (hlen : 2 ≤ offs.length)
+    (hsorted : offs.Pairwise (· ≤ ·)) : firstBlock offs start = .found i ↔ InBlock offs start i :=
+  firstBlock_found_iff offs start i hlen hsorted
+
+example : firstBlock [0, 3, 3, 8] 3 = .found 2 := by decide
+example : InBlock [0, 3, 3, 8] 3 2 := ⟨3, 8, rfl, rfl, by decide, by decide⟩
+example : [0, 3, 3, 8].Pairwise (· ≤ ·) := by decide
+
+/-- Documentation of finding F3 (repaired by 584d30b): with the old "move right" test
+`rangeStart > blockStart` the same search fails on an interior zero-length block — offset 3 lies in
+block 2 of `[0,3,3,8]` but the search answers `-1` (and `sendFileSegmentIterByName` then panics). -/
+theorem C10_firstBlock_old_fails :
+    firstBlockOld [0, 3, 3, 8] 3 = .notFound ∧ InBlock [0, 3, 3, 8] 3 2 :=
+  ⟨by decide, 3, 8, rfl, rfl, by decide, by decide⟩
+
+/-- **Python `first_block` (fixed code) terminates and is correct** for every non-empty list of
+contiguous ranges. -/
+theorem C10_py_firstBlock_correct (rs : List PyRange) (start : Nat) (hne : rs ≠ []) (hc : Contiguous rs) :
+    (∃ i, pyFirstBlock rs start = .found i ∧ PyInBlock rs start i) ∨
+    (pyFirstBlock rs start = .notFound ∧ ∀ j, ¬ PyInBlock rs start j) :=
+  pyFirstBlock_spec rs start hne hc
+
+/-- Documentation of finding F6py (repaired by 9f993b5): the old Python test returned `None`. -/
+theorem C10_py_firstBlock_old_fails :
+    pyFirstBlockOld (pyRangesFrom 0 [⟨[97], 3⟩, ⟨[98], 0⟩, ⟨[99], 5⟩]) 3 = .notFound ∧
+    pyFirstBlock (pyRangesFrom 0 [⟨[97], 3⟩, ⟨[98], 0⟩, ⟨[99], 5⟩]) 3 = .found 2 :=
+  ⟨by decide, by decide⟩
+
+/-! ## one file token: the three range mappers against `resolveTok` -/
+
+/-- **Go manifest package, one token**: for a file token inside its stream (sizes as `ParseInt`
+can represent them) `sendFileSegmentIterByName` does not panic and the segments `segment()` keeps
+(`Len > 0`) are exactly the reference interpreter's pieces. -/
+theorem C10_pkg_token_agrees (name : Bytes) (bs : List Loc) (files : List FTok) (f : FTok)
+    (hsz : ∀ b ∈ bs, b.size < two63) (htot : streamLen bs < two64)
+    (hin : f.pos + f.len ≤ streamLen bs) :
+    ∃ segs, sendTok firstBlock ⟨name, bs, offsetsFrom 0 bs, files, false⟩ f = .ok segs ∧
+      keepPositive segs = resolveTok bs 0 f.pos f.len :=
+  sendTok_spec name bs files f hsz htot hin
+
+/-- **Python range mapper, one token**: `locators_and_ranges` raises nothing and, zero-length
+entries dropped, returns the reference interpreter's pieces. -/
+theorem C10_py_token_agrees (bs : List Loc) (pos len : Nat) (hin : pos + len ≤ streamLen bs) :
+    ∃ segs, pyLocatorsAndRanges pyFirstBlock (pyRangesFrom 0 bs) pos len = .ok segs ∧
+      pyKeep segs = resolveTok bs 0 pos len :=
+  pyLocatorsAndRanges_spec bs pos len hin
+
+/-- **collection-filesystem loader, one token**, from any consistent cursor position
+(`p` = stream offset of block `idx`, the first block of `rest`): the stored segments appended are
+the reference pieces (none of length zero — `resolveTok` lists none), the cursor stays on a block
+boundary, and it runs off the end only if the token exceeds the stream. -/
+theorem C10_fs_token_agrees (o l : Nat) (rest : List Loc) (idx p : Nat) (acc : List Seg) :
+    (fsLoop (o : Int) ((o + l : Nat) : Int) rest idx (p : Int) acc).2.2 = acc ++ resolveTok rest p o l ∧
+    (∃ k, k ≤ rest.length ∧ (k < rest.length → o + l ≤ p + streamLen rest) ∧
+      (fsLoop (o : Int) ((o + l : Nat) : Int) rest idx (p : Int) acc).1 = idx + k ∧
+      (fsLoop (o : Int) ((o + l : Nat) : Int) rest idx (p : Int) acc).2.1 = ((p + streamLen (rest.take k) : Nat) : Int)) :=
+  fsLoop_spec o l rest idx p acc
+
+example : resolveTok [⟨[97], 3⟩, ⟨[98], 0⟩, ⟨[99], 5⟩] 0 2 4 = [⟨[97], 2, 1⟩, ⟨[99], 0, 3⟩] := by decide
+
+/-! ## whole manifests -/
+
+/-- **C10_pkg_agrees.** For every manifest text inside the grammar (sizes representable in Go's
+`int`/`uint64`), `Manifest.segment()` returns no error, reaches no `panic`, and the segment list it
+accumulates for every combined path `stream name + "/" + file name` is `resolve` (so also after
+`norm`). -/
+theorem C10_pkg_agrees (txt : Bytes) (M : Manifest) (hvalid : parseSpec txt = some M)
+    (hfit : ∀ s ∈ M, FitsGo s) :
+    ∃ m, pkgSegment txt = .ok m ∧
+      ∀ sn fn : Bytes, segLookup m (splitPath (pathOf sn fn)) = resolve M (pathOf sn fn) ∧
+        norm (segLookup m (splitPath (pathOf sn fn))) = norm (resolve M (pathOf sn fn)) := by
+  obtain ⟨h1, h2⟩ := pkgStreams_spec txt M hvalid hfit
+  obtain ⟨m, h3, h4⟩ := segmentStreams_spec M [] h2
+  refine ⟨m, ?_, ?_⟩
+  · unfold pkgSegment pkgSegmentWith; rw [h1]; exact h3
+  · intro sn fn
+    have := h4 sn fn
+    simp only [segLookup, List.find?_nil, List.nil_append] at this
+    have e : segLookup m (splitPath (pathOf sn fn)) = resolve M (pathOf sn fn) := this
+    exact ⟨e, by rw [e]⟩
+
+/-- the grammar is inhabited by non-trivial texts: F3's witness is valid, is resolved across the
+zero-length block, and the hypotheses of `C10_pkg_agrees` hold for it -/
+def witnessF3 : Bytes :=
+  str ". aaaaaaaaaaaaaaaaaaaaaaaaaaaaaaaa+3 d41d8cd98f00b204e9800998ecf8427e+0 bbbbbbbbbbbbbbbbbbbbbbbbbbbbbbbb+5 2:4:f\n"
+
 end ArvVerif.C10
